@@ -356,6 +356,17 @@ def _(c):
         lambda fx, eargs: eargs[0] == rets(fx, "bellows.ezsp.protocol.ProtocolHandler._ezsp_frame")[0],
     )
     c.ensures("post.one_request_per_call", lambda fx: len(ext_calls(fx, "gw.send_data")) <= 1, on="any")
+    # "frames that answer no pending call are delivered to the registered callbacks": once the call is over
+    # (result, timeout, send failure, cancellation) its registration is gone, so a later frame carrying this
+    # sequence number is not swallowed as a reply to it
+    c.ensures(
+        "post.no_stale_registration",
+        lambda self, fx: all(
+            ((s_["seq"] - 1) % 256) not in self._awaiting
+            for s_ in [r[2] for r in fx if r[0] == "observe" and r[1] == "ext:gw.send_data"]
+        ),
+        on="any",
+    )
     # "A command call returns exactly the decoded payload of the response frame that carries the sequence
     #  number placed in its own request": a normal return hands back the result of the future registered
     #  by this call (CMD_PROMISE: only __call__ on a frame with that sequence and id completes it)
